@@ -53,7 +53,15 @@ RULE = ("unit: each of the 657 names alone, all 657 together, the full table, ra
         "recycled column pattern of 2..nc-1, more than the row has), also per-column lists shorter than the row; each "
         "cell's \\cf \\cb \\chcbpat \\f AND the \\brdrcf of each of its edges are resolved against the colour "
         "requested for that (table row, column, side) under value[r % rows][c % columns]; with and without the other "
-        "constructor options on top; non-trivial = "
+        "constructor options on top; plus GROUPED tables with the same row-wise attributes (every shape, given for the "
+        "ORIGINAL frame, key columns included): page_by of 1..3 levels with the group headings as spanning rows "
+        "(new_page=False with pageby_row 'column' / 'first_row': several groups on a page, so the body of a page is "
+        "rendered in segments that begin at page-relative rows > 0, inside the recycled patterns), new_page=True with the "
+        "key column kept / taken out, subline_by of 1..2 levels, subline_by + page_by; 6..44 rows on pages of 8..26 "
+        "rows (several pages AND several groups per page), key columns first or anywhere in the frame; every DATA cell "
+        "is tied by its sentinel to (original row, original column) and its \\cf \\cb \\chcbpat \\f and the \\brdrcf of "
+        "each edge must resolve to value[r % rows][c % columns]; group headings and key cells must name a colour / font "
+        "requested for the body; with and without the other constructor options on top; non-trivial = "
         "at least one non-default colour resolved; distinct by (kind, colour table, references)")
 TRUSTED = [
     "Lean 4.33 kernel; axioms ⊆ {propext, Classical.choice, Quot.sound} (audited per theorem on every run)",
@@ -62,7 +70,8 @@ TRUSTED = [
     "harness/rtfread.py (Python RTF reader: colour table, font table, character properties of runs, cell borders)",
     "the requested colour / font of an element is read from the document spec by the harness (documented "
     "broadcasting value[r % rows][c % columns] with r the row of the TABLE (not of the page): scalar, per line, per "
-    "column, per row, matrix, recycled row / column patterns), on one page and over several pages",
+    "column, per row, matrix, recycled row / column patterns), on one page and over several pages, c the column of "
+    "the ORIGINAL frame (page_by / subline_by columns counted, wherever they stand)",
     "eight anchor colours (red, green, blue, white, black, yellow, cyan, magenta) pin the table to the X11/R values",
 ]
 MANIFEST = dict(
@@ -80,8 +89,15 @@ MANIFEST = dict(
          "that cell's edge (row, column, side); any other \\brdrcf (headers, footnote, source, bodies with scalar border "
          "colours) must resolve to one of the requested border colours. border_color_first / _last are collected but "
          "printed on no cell. The element→requested-colour mapping comes from the harness' reading of the "
-         "spec; row-varying attributes are used on single-page documents and on paginated single- and multi-section "
-         "documents (not together with page_by, where group headings share the body's attributes: scalar there). "
+         "spec; row-varying attributes are used on single-page documents, on paginated single- and multi-section "
+         "documents and on page_by / subline_by / page_by + subline_by tables (kind grouped-rows…): there the DATA cells "
+         "are judged per cell (original row and column of the frame, key columns counted); a group heading (spanning "
+         "row) prints the body's attributes at row 0 of its key column (encoder model: spanRead, C12enc_heading_cell) -- "
+         "that reading is compared with the model, while the oracle only asks that every reference of a heading, or of "
+         "a cell of a key column that stays in the table (one text in many rows), names an existing entry whose RGB is "
+         "that of a colour requested for the body's text / background (0 = default) and a font requested for the body; "
+         "multi-section documents have no page_by. Under subline_by every page_by group starts a page of its own "
+         "(rtflite forces new_page), so segments at row offsets > 0 only arise without subline_by. "
          "A column header without text is filled "
          "with the displayed column names (sentinel-named columns) and judged like a header with text; when two "
          "text-less headers of a section print the same name, the k-th occurrence on a page is the k-th header's. "
@@ -719,9 +735,12 @@ def column_pattern_attr(rng, mk, nc):
     return [mk() for _ in range(rng.randint(2, nc - 1))], "per-column<n(recycled)"
 
 
-def gen_body_rows(rng, pal, sec, nr, nc, want, bwant, elements, counts, periods):
+def gen_body_rows(rng, pal, sec, nr, nc, want, bwant, elements, counts, periods, data_cols=None, label="rowpaged"):
     """body of nr × nc sentinels whose text colour, background, font and border colours are mostly row patterns;
-    bwant: sentinel → requested colour of each edge {l, t, r, b}; periods: the row-pattern lengths drawn"""
+    bwant: sentinel → requested colour of each edge {l, t, r, b}; periods: the row-pattern lengths drawn.
+    data_cols: the frame has nc columns but only these (original positions) hold sentinels -- the others are key columns
+    (page_by / subline_by) the caller fills in; the attributes are drawn for the whole nc-column frame and a sentinel
+    carries its ORIGINAL column index.  The rows returned hold the data cells only."""
     font = lambda: rng.randint(1, 10)  # noqa: E731
     mkc = lambda: pal.one(blank=0.1)  # noqa: E731
     kw, vals, bcols = {}, {}, []
@@ -731,17 +750,17 @@ def gen_body_rows(rng, pal, sec, nr, nc, want, bwant, elements, counts, periods)
         if r < p_rows:
             v, p, labs = pattern_attr(rng, mk, nr, nc)
             periods.append(p)
-            counts.extend(f"rowpaged:{'border_color' if field.startswith('border') else field}:{x}" for x in labs)
+            counts.extend(f"{label}:{'border_color' if field.startswith('border') else field}:{x}" for x in labs)
         elif r < p_rows + 0.2:
             v, lab = column_pattern_attr(rng, mk, nc)
-            counts.append(f"rowpaged:{'border_color' if field.startswith('border') else field}:{lab}")
+            counts.append(f"{label}:{'border_color' if field.startswith('border') else field}:{lab}")
         else:
             return None
         kw[field] = v
         return v
 
     which = rng.choice(["tc", "bg", "bc", "ft", "tc+bg", "tc+bc", "bg+bc", "all", "all", "all"])
-    counts.append("rowpaged_attrs:" + which)
+    counts.append(label + "_attrs:" + which)
     tc = draw("text_color", mkc, 0.85) if which in ("tc", "tc+bg", "tc+bc", "all") else None
     bg = draw("text_background_color", mkc, 0.85) if which in ("bg", "tc+bg", "bg+bc", "all") else None
     ft = draw("text_font", font, 0.85) if which in ("ft", "all") or rng.random() < 0.3 else None
@@ -756,7 +775,7 @@ def gen_body_rows(rng, pal, sec, nr, nc, want, bwant, elements, counts, periods)
     rows = []
     for i in range(nr):
         row = []
-        for j in range(nc):
+        for j in (range(nc) if data_cols is None else data_cols):
             s = f"s{sec}r{i}c{j}z"
             row.append(s)
             want[s] = [pick(tc, i, j, False) or "", pick(bg, i, j, False) or "", pick(ft, i, j, False) or 1]
@@ -842,6 +861,184 @@ def rowpaged_labels(case, ob):
         labs.append("rowpaged:a-page-starts-inside-a-recycled-pattern(start % rows != 0)")
     elif short and any(r > 0 for _, r in starts):
         labs.append("rowpaged:every-page-starts-at-a-pattern-boundary")
+    return labs
+
+
+# ------------------------------------------------------------------ observation level: row-wise attributes in GROUPED tables
+
+GROUP_STRATEGIES = (["page_by"] * 6 + ["page_by_first_row"] * 2 + ["page_by_np", "page_by_np_first"]
+                    + ["subline"] * 2 + ["subline_page_by"] * 4 + ["subline_page_by_first_row", "subline_page_by_np_first"])
+
+
+def hier_keys(rng, n, hier, max_run):
+    """hierarchical key columns as contiguous runs: {column: [value per row]}; hier = [(column, tag)…] outermost first.
+    Inner levels restart under every outer run and draw from a small alphabet, so equal inner values recur under
+    different outer groups.  Every value is a sentinel `<tag><letter…>z`."""
+    out, outer = {}, None
+    for lvl, (col, tag) in enumerate(hier):
+        letters = "abcdefgh" if lvl == 0 else rng.choice(["ab", "abc", "abcdefgh"])
+        alpha = [f"{tag}{x}" for x in letters]
+        if outer is None:
+            vals = docgen.run_keys(rng, n, alpha, 1, max_run)
+        else:
+            vals, i = [], 0
+            while i < n:
+                j = i
+                while j < n and outer[j] == outer[i]:
+                    j += 1
+                vals += docgen.run_keys(rng, j - i, alpha, 1, max(1, max_run // 2))
+                i = j
+        vals = [v + "z" for v in vals]
+        out[col] = vals
+        outer = vals if outer is None else [a + "|" + b for a, b in zip(outer, vals)]
+    return out
+
+
+def flat_values(v):
+    """every value an attribute names, whatever its shape"""
+    if v is None:
+        return []
+    if isinstance(v, dict) and "__tuple__" in v:
+        return list(v["__tuple__"])
+    if isinstance(v, list):
+        return [y for x in v for y in (x if isinstance(x, list) else [x])]
+    return [v]
+
+
+def gen_doc_rowgroups(rng, names, groups):
+    """Tables with page_by (1..2 levels; group headings as spanning rows -- new_page=False, with pageby_row 'column' or
+    'first_row' -- or new_page=True with the column kept / taken out), subline_by (1..2 levels) and subline_by + page_by,
+    whose body text colour, background, font and the four border colours vary BY ROW (and by column) in every
+    broadcasting shape of `pattern_attr`, given for the ORIGINAL frame (key columns included, at any position of the
+    frame).  Runs are short against the page (several groups per page: the body of a page is rendered in segments, one
+    per group, each starting at a page-relative row > 0) and the table is longer than a page (several pages: every
+    page's attributes are cut out of the table's).  Each DATA cell is tied to (original row, original column) by its
+    sentinel.  The group headings (spanning rows) print the body's attributes at row 0 of their key column (the encoder
+    model's `spanRead`): compared with the model; for the oracle they only have to name a colour / font requested for
+    the body.  Key columns that stay in the table (new_page=True, pageby_row='column') print one text in many rows:
+    judged like the headings."""
+    strategy = rng.choice(GROUP_STRATEGIES)
+    want, bwant, hwant, loose, elements, counts, border_cols, periods = {}, {}, {}, {}, [], [], [], []
+    k = rng.choice([2, 3, 3, 4, 4, 5, 6, 8])
+    pal = Palette(rng, names, groups, k)
+    spec = dict(kind="table")
+    for role in ("title", "subline", "page_header", "page_footer"):
+        if rng.random() < 0.3:
+            spec[role] = gen_text_comp(rng, pal, role, want, elements)
+    for role in ("footnote", "source"):
+        if rng.random() < 0.3:
+            spec[role] = gen_text_comp(rng, pal, role, want, elements, bcols=border_cols)
+    nrow = rng.randint(8, 26)
+    spec["page"] = dict(nrow=nrow)
+    for f in ("page_title", "page_footnote", "page_source"):
+        if rng.random() < 0.3:
+            spec["page"][f] = rng.choice(["all", "first", "last"])
+    sub = strategy.startswith("subline")
+    pby = "page_by" in strategy
+    nsub = rng.choice([1, 1, 2]) if sub else 0
+    npb = rng.choice([1, 1, 1, 2, 2, 3]) if pby else 0
+    subline_by = [f"u{l}" for l in range(nsub)]
+    page_by = [f"g{l}" for l in range(npb)]
+    new_page = strategy.endswith(("_np", "_np_first"))
+    pageby_row = "first_row" if strategy.endswith("first_row") or strategy.endswith("_np_first") else "column"
+    ndata = rng.randint(1, 4)
+    n = rng.randint(6, 44)
+    keycols = subline_by + page_by
+    cols = keycols + [f"d{j}" for j in range(ndata)]
+    if rng.random() < 0.5:      # key columns anywhere in the frame: attributes bind by position, the options by name
+        rng.shuffle(cols)
+        counts.append("rowgroups:key-columns-anywhere-in-the-frame")
+    else:
+        counts.append("rowgroups:key-columns-first")
+    nc = len(cols)
+    pos = {c: cols.index(c) for c in cols}
+    data_pos = [j for j, c in enumerate(cols) if c not in keycols]
+    keys = hier_keys(rng, n, [(c, c) for c in keycols], rng.choice([2, 3, 4, max(2, nrow // 3), max(2, nrow // 2)]))
+    kw, drows, bc = gen_body_rows(rng, pal, 0, n, nc, want, bwant, elements, counts, periods, data_cols=data_pos,
+                                  label="rowgroups")
+    border_cols += bc
+    # (the cells of a key column that stays in the table carry the border colours of THEIR column: every colour the four
+    # matrices name may be printed)
+    border_cols += sorted({x for f in SIDE_FIELDS.values() for x in flat_values(kw.get(f)) if x} - set(bc))
+    rows = []
+    for i in range(n):
+        row = [None] * nc
+        for c in keycols:
+            row[pos[c]] = keys[c][i]
+        for j, s in zip(data_pos, drows[i]):
+            row[j] = s
+        rows.append(row)
+    tc, bg, ft = kw.get("text_color"), kw.get("text_background_color"), kw.get("text_font")
+    spanning = pby and (not new_page or pageby_row != "column")
+    kept = pby and not spanning and not sub
+    allowed = dict(cf=sorted(set(flat_values(tc))), cb=sorted(set(flat_values(bg))),
+                   f=sorted(set(flat_values(ft)) or {1}))
+    absent = []
+    for c in page_by:
+        for t in sorted(set(keys[c])):
+            loose[t] = allowed
+            if spanning:        # the model's reading of a heading: row 0 of the key column
+                hwant[t] = [pick(tc, 0, pos[c], False) or "", pick(bg, 0, pos[c], False) or "",
+                            pick(ft, 0, pos[c], False) or 1]
+                elements.append([t, "body", 0, 0, pos[c]])
+                absent.append(t)
+    if pby:
+        kw.update(page_by=page_by, new_page=new_page, pageby_row=pageby_row)
+    if sub:
+        kw["subline_by"] = subline_by
+    if rng.random() < 0.4:
+        kw["pageby_header"] = rng.random() < 0.5
+    removed = set(subline_by) | (set(page_by) if spanning or (pby and sub and pageby_row != "column") else set())
+    if pby and sub and not spanning:
+        removed = None          # (which columns stay is the layout's business: no header cells are counted on)
+    spec["df"] = dict(cols=cols, rows=rows)
+    spec["body"] = kw
+    ndisp = None if removed is None else len([c for c in cols if c not in removed])
+    r = rng.random()
+    if ndisp is not None and r < 0.45:
+        spec["headers"] = [gen_header(rng, pal, 0, 0, ndisp, want, elements, border_cols)]
+    elif ndisp is not None and r < 0.55:
+        spec["headers"] = [gen_header(rng, pal, 0, 0, 1, want, elements, border_cols),
+                           gen_header(rng, pal, 0, 1, ndisp, want, elements, border_cols)]
+        spec["headers"][0]["col_rel_width"] = [1]
+    elif r < 0.75:
+        spec["headers"] = []
+    counts.append("rowgroups_strategy:" + strategy)
+    counts.append(f"rowgroups_levels:page_by={npb},subline_by={nsub}")
+    counts.append("rowgroups_headings:" + ("spanning-rows" if spanning else "key-column-kept" if kept else
+                                           "subline-paragraphs-only" if not pby else "with-subline"))
+    return dict(kind="grouped-rows:" + strategy, spec=spec, want=want, bwant=bwant, hwant=hwant, loose=loose,
+                may_be_absent=absent, elements=elements, counts=counts, border_cols=border_cols, k=k, periods=periods)
+
+
+def rowgroups_labels(case, ob):
+    """what the layout of a grouped row-pattern document turned out to be (evidence: data rows really are rendered after
+    a group heading in the middle of a page, at page-relative rows that are not a multiple of a pattern's length)"""
+    pages = ob.get("page_rows") or []
+    npages = sum(1 for p in pages if any(BODY_SENTINEL.fullmatch(t) for t in p))
+    labs = ["rowgroups_pages:" + ("1" if npages <= 1 else "2..3" if npages <= 3 else "4+")]
+    loose = case.get("hwant") or {}         # the texts of the spanning heading rows
+    short = [p for p in case.get("periods") or [] if p > 1]
+    segs = offs = most = 0
+    for p in pages:
+        k, heads = 0, 0            # k: data rows of the page so far
+        for prev, t in zip([None] + p[:-1], p):
+            if BODY_SENTINEL.fullmatch(t):
+                if prev in loose and k > 0:     # a data row that follows a heading, below other data rows of the page
+                    segs += 1
+                    if any(k % q != 0 for q in short):
+                        offs += 1
+                k += 1
+            elif t in loose:
+                heads += 1
+        most = max(most, heads)
+    labs.append("rowgroups_headings_on_one_page:" + ("0" if most == 0 else "1" if most == 1 else "2..3" if most <= 3 else "4+"))
+    if segs:
+        labs.append("rowgroups:a-segment-begins-below-other-data-rows-of-its-page(row_offset>0)")
+    if offs:
+        labs.append("rowgroups:a-segment-begins-inside-a-row-pattern(row_offset % rows != 0)")
+    if npages > 1 and segs:
+        labs.append("rowgroups:several-pages-AND-several-segments-per-page")
     return labs
 
 
@@ -1076,7 +1273,7 @@ def add_options(rng, case, sch, auto):
     read from the classes' model fields at run time, options that are documented but without effect included).  None
     of them changes which colour or font an element was given, so the expectations of the document stay as they are."""
     spec, labels = case["spec"], case["counts"]
-    pageby = isinstance(spec.get("body"), dict) and "page_by" in spec["body"]
+    pageby = isinstance(spec.get("body"), dict) and ("page_by" in spec["body"] or "subline_by" in spec["body"])
     drawn = case.setdefault("options", [])      # [path into the spec, option] of everything drawn here (for shrinking)
 
     def draw(path, comp, kw, **kwargs):
@@ -1106,7 +1303,7 @@ def add_options(rng, case, sch, auto):
         own = OWN_ALL + OWN_STRUCT["body"]
         if auto:
             own += ("as_colheader",)            # decides whether a text-less header is rendered: set by the generator
-        if "page_by" in b:
+        if "page_by" in b or "subline_by" in b:
             own += ("new_page", "pageby_row", "col_rel_width")
         draw(["body", i] if multi else ["body"], "body", b, p=0.15, owned=own, n=nc, ncols=nc)
     if spec["kind"] == "table" and not pageby and not auto and frames and rng.random() < 0.12:
@@ -1190,7 +1387,7 @@ BODY_SENTINEL = re.compile(r"s(\d+)r(\d+)c\d+z")          # gen_body: section, t
 
 def _observe(rtf_text):
     doc = rtfread.read(rtf_text)
-    runs, borders, cell_borders, page_starts = [], [], [], []
+    runs, borders, cell_borders, page_starts, page_rows = [], [], [], [], []
 
     def walk(blocks):
         for b in blocks:
@@ -1226,6 +1423,9 @@ def _observe(rtf_text):
                         first = [int(mm.group(1)), int(mm.group(2))]
                         break
         page_starts.append(first)
+        # the text of the first cell of every table row of the page (which rows are group headings, which data rows)
+        page_rows.append(["".join(r.text for r in b.cells[0].runs).strip() if b.cells else ""
+                          for b in p.blocks if b.kind == "row"])
     for h in doc.headers + doc.footers:
         walk(h)
     seen = []
@@ -1237,7 +1437,7 @@ def _observe(rtf_text):
         seen.append([t, p.get("f"), p.get("cf"), p.get("cb"), p.get("chcbpat")])
     return dict(has_table=doc.has_colortbl, entries=[None if c is None else list(c) for c in doc.colors],
                 fonts=[[k, v.get("name", "")] for k, v in sorted(doc.fonts.items())], runs=seen, borders=borders,
-                cell_borders=cell_borders, page_starts=page_starts)
+                cell_borders=cell_borders, page_starts=page_starts, page_rows=page_rows)
 
 
 def _doc_worker(case):
@@ -1326,6 +1526,8 @@ def request_of(case, el):
     belongs to when several of them print the same column name"""
     if len(el) > 5:
         return case["occ"][el[0]][el[5]]
+    if el[0] not in case["want"]:
+        return case["hwant"][el[0]]         # a group heading: the model's reading (row 0 of the key column)
     return case["want"][el[0]]
 
 
@@ -1355,7 +1557,10 @@ def doc_requests(case, ob):
     uses, owners, fuses, fowners = [], [], [], []
     seen = {}
     occ = case.get("occ") or {}
+    loose = case.get("loose") or {}
     for t, f, cf, cb, pat in ob["runs"]:
+        if t in loose and t not in want:
+            continue        # group headings / key cells: judged in judge_doc (a colour / font requested for the body)
         if t in want:
             seen[t] = seen.get(t, 0) + 1
             # a column name printed by several text-less headers of its section: they are rendered in their order, on
@@ -1410,6 +1615,28 @@ def judge_doc(res, case, ob, m, o, bk, rgbs_of):
         if not ok:
             res.fail(case, f"\\brdrcf{v} does not resolve to a requested border colour (table {ob['entries'][:10]})")
             return
+    # group headings (spanning rows) and the cells of key columns that stay in the table: one text printed for many rows.
+    # Every reference they carry names an existing entry with the RGB of a colour requested for the body's text /
+    # background (index 0: the default colour), their \\f an entry of the font table for a font requested for the body
+    loose = case.get("loose") or {}
+    if loose:
+        fnames = dict(map(tuple, ob["fonts"]))
+        for t, f, cf, cb, pat in ob["runs"]:
+            if t not in loose or t in want:
+                continue
+            for nm, v, key in (("\\cf", cf, "cf"), ("\\cb", cb, "cb"), ("\\chcbpat", pat, "cb")):
+                if not v:
+                    continue
+                ok_rgb = {tuple(rgbs_of[c]) for c in loose[t][key] if c in rgbs_of and c not in ("", "black")}
+                if not (0 < v < len(ob["entries"]) and ob["entries"][v] is not None and tuple(ob["entries"][v]) in ok_rgb):
+                    ent = ob["entries"][v] if 0 <= v < len(ob["entries"]) else "<no such entry>"
+                    res.fail(case, f"group heading / key cell {t}: {nm}{v} → {ent} is not a colour requested for the "
+                                   f"body ({loose[t][key][:8]}) (table {ob['entries'][:10]})")
+                    return
+            if f is None or f < 0 or f not in fnames or (f + 1) not in loose[t]["f"]:
+                res.fail(case, f"group heading / key cell {t}: \\f{f} names {fnames.get(f)!r}, fonts requested for the "
+                               f"body: {loose[t]['f']}")
+                return
     # ---- correspondence model / implementation
     if m["err"] is not None:
         res.disagree(case, f"model refuses the collected colours ({m['err']}) but the implementation encoded")
@@ -1502,6 +1729,12 @@ def run_docs(res, tier, names, groups, corpus=()):
         base = gen_doc_rowpaged(sub_rng(res.seed, "c12rowsopt", k), names, groups)
         base["kind"] += "+options"
         cases.append(add_options(sub_rng(res.seed, "c12rowsopt-o", k), base, sch, False))
+    for k in range(220 if tier == "quick" else 2200):  # row-wise attributes in page_by / subline_by tables
+        cases.append(gen_doc_rowgroups(sub_rng(res.seed, "c12groups", k), names, groups))
+    for k in range(60 if tier == "quick" else 600):    # … with the options on top
+        base = gen_doc_rowgroups(sub_rng(res.seed, "c12groupsopt", k), names, groups)
+        base["kind"] = "grouped-rows+options"
+        cases.append(add_options(sub_rng(res.seed, "c12groupsopt-o", k), base, sch, False))
     own = OWN_ALL + tuple(x for v in OWN_STRUCT.values() for x in v)
     res.extra["options"] = dict(
         classes={c: len(f) for c, f in sch["classes"].items()},
@@ -1524,11 +1757,15 @@ def run_docs(res, tier, names, groups, corpus=()):
             case["occ"] = c["occ"]
         if c.get("options"):
             case["options"] = c["options"]
+        for f in ("hwant", "loose", "may_be_absent"):
+            if c.get(f):
+                case[f] = c[f]
         if c.get("bwant"):
             case["bwant"] = c["bwant"]
-            for lab in rowpaged_labels(c, ob) if ob["status"] == "ok" else []:
+            labels = rowgroups_labels if c["kind"].startswith("grouped-rows") else rowpaged_labels
+            for lab in labels(c, ob) if ob["status"] == "ok" else []:
                 res.count(lab)
-        res.count("doc:" + c["kind"])
+        res.count("doc:" + c["kind"].split(":")[0])
         res.count(f"doc_colours:{c.get('k', '?')}")
         for lab in c.get("counts", []):
             res.count(lab)
@@ -1587,7 +1824,8 @@ def load_corpus():
                                 elements=[[e[0], e[1], tuple(e[2]) if isinstance(e[2], list) else e[2]] + list(e[3:])
                                           for e in c["elements"]],
                                 border_cols=c.get("border_cols", []), occ=c.get("occ") or {}, counts=[], k="corpus",
-                                bwant=c.get("bwant") or {}))
+                                bwant=c.get("bwant") or {}, hwant=c.get("hwant") or {}, loose=c.get("loose") or {},
+                                may_be_absent=c.get("may_be_absent") or []))
     return out
 
 
@@ -1634,7 +1872,8 @@ def replay(payload) -> int:
                  elements=[[e[0], e[1], tuple(e[2]) if isinstance(e[2], list) else e[2]] + list(e[3:])
                            for e in case["elements"]],
                  border_cols=case.get("border_cols", []), occ=case.get("occ") or {}, options=case.get("options") or [],
-                 bwant=case.get("bwant") or {})
+                 bwant=case.get("bwant") or {}, hwant=case.get("hwant") or {}, loose=case.get("loose") or {},
+                 may_be_absent=case.get("may_be_absent") or [])
         hs = case.get("hashseed") or "0"
         ob = run_in_fresh_processes([c], [hs])[0]
         print("status:", ob["status"], ob.get("exc", ""), ob.get("msg", ""))
